@@ -116,9 +116,21 @@ func RunReplay(t *testing.T, table map[string]func()) {
 			}
 			st.mu.Lock()
 			qw := quiesceWaiter
-			quiesceWaiter = nil
 			st.mu.Unlock()
+			if qw != nil && Parked() != "" {
+				// the harness waits for quiescence while goroutines are parked at gates that are not next in the
+				// recorded order: the order cannot be followed any further. In the engine Quiesce never returns
+				// with a thread parked at a gate, so let the parked goroutines through (one at a time, stable
+				// order) before the harness goes on to its oracle.
+				AbandonOrder()
+				out.Note = fmt.Sprintf("gate order abandoned at %q (quiescence); parked: %s", label, Parked())
+				stuck = 0
+				continue
+			}
 			if qw != nil {
+				st.mu.Lock()
+				quiesceWaiter = nil
+				st.mu.Unlock()
 				close(qw)
 				stuck = 0
 				continue
